@@ -3,6 +3,7 @@ import copy
 import itertools
 import pickle
 
+from symx.core import SymReal
 from symx.shims import clear_caches
 
 from .common import PREFIX, And, Case, Not, call, check_names, close, exact_eq, payload
@@ -12,66 +13,177 @@ LEVEL = "model_checking"
 MANIFEST = dict(
     category="model_checking",
     text=("Bounded model checking of aliasing between registries with the real code as transition function: 2-3 registries created in "
-          "every listed way (empty, with defaults, lut=, from_json, unpickled, deepcopy, Unit.copy() shallow/deep, non-default unit "
-          "system) plus the default registry and the unyt namespace; ALL interleavings of operations up to the bound are executed; after "
-          "every step every registry that was not operated on is digested (resolution of a probe set of unit strings to scale TERMS, "
-          "dimensions, offsets + the raw table rows) and z3 decides digest(before) == digest(after) for all values of the symbolic "
-          "scales and edit values; default_unit_registry.modify/remove must raise for every symbol and every symbolic value; "
-          "mixed-registry operations must bind the result to the left operand's registry and change no digest. The violations this "
-          "property is about are aliasing of dicts, i.e. discrete facts: the interleavings are enumerated, the solver's share is that "
-          "digests are compared as terms (a write that stores a different symbol is seen even where a test would store an equal number)."),
+          "every listed way (empty, with defaults, lut=, from_json, unpickled, deepcopy, Unit.copy() shallow/deep, copy.copy(), non-default unit "
+          "system, a registry that redefines the prefixable stock symbol 'm'), pairs of registries BORN TOGETHER from one source (two arrays / "
+          "a Unit and an array / nested containers in ONE pickle.dumps, the same bytes or the same JSON text restored twice, one deepcopy of a "
+          "container, two copies) with the source kept under observation, plus the default registry and the unyt namespace; ALL "
+          "interleavings of operations up to the bound are executed; after every step every registry is digested through four channels "
+          "(Unit(s) answered from the registry's warm string cache, reg[s] / s in reg which bypass that cache, a spelling that is new in "
+          "every observation round and therefore parsed and looked up afresh, and the raw table rows), the registry operated on FIRST and "
+          "all others after it with no edit in between. z3 decides for all values of the symbolic scales and edit values (1) "
+          "digest(before) == digest(after) for every registry not operated on and (2) every channel of every registry not edited in the "
+          "step equals what that registry's OWN table says (expected answer read off the raw rows with the harness's prefix table), so a "
+          "process-wide memo that hands one registry's derived row or Unit object to another is seen even if nothing changes afterwards; "
+          "default_unit_registry.modify/remove must raise for every symbol and every symbolic value; mixed-registry operations must bind "
+          "the result to the left operand's registry and change no digest. The violations this property is about are aliasing of dicts "
+          "and memo keys that forget the registry, i.e. discrete facts: the interleavings are enumerated, the solver's share is that "
+          "digests are compared as terms (a write or a memo hit that stores a different symbol is seen even where a test would store an equal number)."),
     design="DESIGN.md section 4 C13",
-    technique="explicit-state bounded model checking over interleavings, symbolic (z3 real) scales, digest-invariance obligations; counterexample replay on plain unyt")
+    technique="explicit-state bounded model checking over interleavings, symbolic (z3 real) scales, digest-invariance and own-table obligations; counterexample replay on plain unyt")
 EXPLANATION = (
-    "Transition function = the real UnitRegistry.__init__/add/modify/remove/to_json/from_json/__deepcopy__, Unit.__new__/copy/__mul__/"
-    "__truediv__, _lookup_unit_symbol write-back, unyt_array.__reduce__/__setstate__ (pickle), UnitSystem creation, define_unit, "
-    "_NonModifiableUnitRegistry. Specification = frame condition: an operation on registry X leaves digest(Y) unchanged for every other "
-    "registry Y, for the default registry and for the unyt namespace (digest = probe-string resolutions as terms + raw table rows, "
-    "new rows tolerated only if they are derived SI-prefixed rows of a prefixable symbol with scale prefix*base)."
+    "Transition function = the real UnitRegistry.__init__/add/modify/remove/__getitem__/__contains__/to_json/from_json/__copy__/__deepcopy__, "
+    "Unit.__new__ (string cache)/copy/__mul__/__truediv__, _lookup_unit_symbol, _correct_old_unit_registry, unyt_array.__reduce__/__setstate__ "
+    "(pickle, several objects per dump), default pickling of Unit objects, UnitSystem creation, define_unit, _NonModifiableUnitRegistry. "
+    "Specification = (1) frame condition: an operation on registry X leaves digest(Y) unchanged for every other registry Y (the source "
+    "registry of restored/copied siblings included), for the default registry and for the unyt namespace; (2) own-table condition: what a "
+    "registry that was not edited in the step answers - through its warm Unit cache, through reg[s]/in, through a never-seen spelling - is "
+    "what its own raw table says (prefix table of the harness x base row), and the Unit it returns is bound to it. digest = probe-string "
+    "resolutions as terms in the four channels + raw table rows, new rows tolerated only if they are derived SI-prefixed rows of a "
+    "prefixable symbol with scale prefix*base. Observation order inside a step: operated-on registry first, then the others."
 )
 BOUNDS = {
     "quick": "11 registry configurations (A-kind | how B was obtained, incl. copy.copy() of a registry and of the default registry); 11-operation alphabet (4 edits x 2 registries, derive, mixed-registry "
-             "ops, default-registry ops); ALL interleavings of length <= 3; + 12 fixed histories through the real add_symbols/add_constants; probe set of 17 strings per registry + raw rows; unyt namespace: 24 names",
+             "ops, default-registry ops); ALL interleavings of length <= 3; + 12 fixed histories through the real add_symbols/add_constants; + 13 sibling configurations (two registries "
+             "restored/copied together from one watched source: 5 one-dump pickle forms, loads twice, JSON twice, deepcopy of tuple / of units / of [S, S], copy twice, Unit.copy(deep) twice, "
+             "lut copy twice) and 3 configurations with a registry that redefines 'm', ALL interleavings of length <= 2 each; probe set of 18 strings (15 also through reg[s] and `in`) + 4 "
+             "fresh spellings per registry and observation round + raw rows; unyt namespace: 24 names",
     "thorough": "12 two-registry configurations + 3 three-registry configurations (15 operations, length <= 3); ALL interleavings of length <= 4 for the four configurations "
-                "{independent, deepcopy, Unit.copy() shallow, unpickled} (cut from 'all twelve' to meet the 15 min budget), <= 3 for the other eight",
+                "{independent, deepcopy, Unit.copy() shallow, unpickled} (cut from 'all twelve' to meet the 15 min budget), <= 3 for the other eight; 16 sibling + 3 redefined-'m' "
+                "configurations: length <= 3 for six of them (pickle tuple, pickle Unit+array, JSON twice, deepcopy tuple, copy twice, redefined 'm' next to an independent registry), <= 2 for the other thirteen",
 }
 OUTSIDE = ("interleavings longer than the bound; HDF5 (h5py absent); registries deliberately sharing a dict passed by the user (lut=other.lut); "
            "threads; the content of a copy relative to its original (C11); scales of JSON/pickle sources are concrete (a symbolic real "
-           "cannot be serialised), the edit values stay symbolic")
+           "cannot be serialised), the edit values stay symbolic; more than two siblings per dump (three objects are pickled in the nested form, two of them used); "
+           "process-wide state that survives from one explored path to the next other than unyt's lru_caches (the runner clears only those: on a tree with such a "
+           "memo some counterexamples found symbolically may not replay, the ones caused inside one path do)")
 
 ASSUMPTIONS = [
     "C13: the operation taken at step i is decoded from an auxiliary real symbol op_i (interval decoding); the explorer thereby enumerates all interleavings, one path each; the symbols have no meaning for unyt",
     "C13: Unit.__hash__/unit_system_id hash the repr of the registry table: two symbolic scales with different names never hash alike while two equal floats do. Registries that hold the SAME contents are therefore covered by explicit configurations (indep_same and the copy routes), and registries created independently are assumed to differ in the scales of xfoo and xbar",
     "C13: scales of registries that are sources of a JSON or pickle round trip are concrete (2.0, 3.0); values written by later edits are symbolic",
+    "C13: trailing blanks do not change the meaning of a unit string ('kxfoo  ' is 'kxfoo'): the fresh spelling of observation round n is the probe string followed by n+1 blanks, a distinct key for every string-keyed cache",
+    "C13: one pickle.dumps / one copy.deepcopy of a container may restore ONE registry object for several members (it mirrors the sharing of the source); two separate loads / from_json / copy calls must give two registry objects",
 ]
 XNEW, XQQ = "xnew", "xqq"
-PROBE_STRINGS = [FOO, "k" + FOO, BAR, f"{FOO}*{BAR}", XNEW, "k" + XNEW, XQQ, "m", "km", "g", "mg", "s", "K", "degC", "J", "erg/s", "kg*m**2/s**2"]
+PROBE_STRINGS = [FOO, "k" + FOO, BAR, f"{FOO}*{BAR}", XNEW, "k" + XNEW, XQQ, "k" + XQQ, "m", "km", "g", "mg", "s", "K", "degC", "J", "erg/s", "kg*m**2/s**2"]
 NS_NAMES = ["m", "km", "cm", "g", "kg", "s", "hr", "K", "degC", "degF", "J", "erg", "W", "N", "Pa", "eV", "Msun", "pc",
             "c", "G", "kboltz", "me", "mp", "speed_of_light"]
 NS_CONV = [("km", "cm"), ("erg", "J"), ("degC", "K"), ("hr", "s")]
 
 
 # ------------------------------------------------------------------------------------ digests
+#
+# A registry is observed through FOUR channels, because what one registry does may reach another one through any memo layer:
+#   res   Unit(s, registry=reg)          - answered from the registry's own string cache once it is warm
+#   raw   reg[s] and (s in reg)          - the registry-level lookup, never answered from the per-registry Unit cache
+#   cold  Unit(s + blanks, registry=reg) - a spelling nobody asked this registry for before (a new one in every observation
+#                                          round, the SAME one for all registries of a round): parsed and looked up afresh
+#   lut   the raw table rows
+# Within one observation round the registry that was operated on is observed FIRST, every other registry after it with no edit
+# in between ("built through one, then resolved through another").
 
-def resolve(unyt, reg, s):
-    if s.isidentifier() and not (s in reg):  # the registry's own answer (prefix-aware); spares a sympy parse per unknown atom
+RAW_STRINGS = [s for s in PROBE_STRINGS if s.isidentifier()]
+
+
+def eq(a, b):
+    """exact equality of two scales/offsets; answered without building a solver term where the two are the same object, two
+    plain numbers or structurally the same z3 term (hash-consed), which is the overwhelmingly common case"""
+    if a is b:
+        return True
+    sa, sb = isinstance(a, SymReal), isinstance(b, SymReal)
+    if not sa and not sb:
+        return a == b
+    if sa and sb and a.t.eq(b.t):
+        return True
+    return exact_eq(a, b)
+
+
+def conj(conds):
+    rest = []
+    for c in conds:
+        if c is True:
+            continue
+        if c is False:
+            return False
+        rest.append(c)
+    if not rest:
+        return True
+    return rest[0] if len(rest) == 1 else And(*rest)
+# (spelling, factors [(prefix, symbol)]) - the factors are what the spelling MEANS (used by the own-table oracle only)
+COLD_PROBES = [("k" + FOO, [("k", FOO)]), ("mg", [("m", "g")]), ("k" + XNEW, [("k", XNEW)]), (f"M{FOO}*mg", [("M", FOO), ("m", "g")])]
+
+
+def split_atom(s):
+    """independent reading of an identifier probe: (prefix, symbol) candidates in the documented order (the name itself,
+    then SI prefix + prefixable symbol)"""
+    out = [("", s)]
+    for p in PREFIX:
+        if s.startswith(p) and len(s) > len(p):
+            out.append((p, s[len(p):]))
+    return out
+
+
+def table_atom(lut, prefix, sym):
+    """what the table `lut` ALONE says about prefix+sym: (scale, dims, offset) or None"""
+    row = lut.get(sym)
+    if row is None or (prefix and not row[4]):
+        return None
+    return ((row[0] * PREFIX[prefix]) if prefix else row[0], row[1], row[2])
+
+
+def table_answer(lut, s):
+    for p, sym in split_atom(s):
+        if not p and sym not in lut:
+            continue
+        a = table_atom(lut, p, sym)
+        if a is not None:
+            return a
+    return None
+
+
+def resolve(unyt, reg, s, spelled=None, has=None):
+    if s.isidentifier() and not (has[s] if has is not None else (s in reg)):  # the registry's own answer (prefix-aware); spares a sympy parse per unknown atom
         return ("unknown", "not in registry")
-    r = call(unyt.Unit, s, registry=reg)
+    r = call(unyt.Unit, s if spelled is None else spelled, registry=reg)
     if r[0] == "raise":
         return ("unknown", type(r[1]).__name__)
     u = r[1]
+    if u.registry is not reg:
+        return (u.base_value, u.dimensions, u.base_offset, "bound to another registry")
     return (u.base_value, u.dimensions, u.base_offset)
 
 
-def digest(unyt, reg):
-    res = {s: resolve(unyt, reg, s) for s in PROBE_STRINGS}
-    return res, dict(reg.lut)  # rows are immutable tuples: a shallow copy of the dict is a faithful snapshot
+def raw_lookup(reg, s):
+    r = call(reg.__getitem__, s)
+    if r[0] == "raise":
+        return ("unknown", type(r[1]).__name__)
+    return tuple(r[1])
+
+
+class Digest:
+    __slots__ = ("res", "lut", "raw", "has", "cold", "rnd")
+
+
+def digest(unyt, reg, rnd=0):
+    d = Digest()
+    d.rnd = rnd
+    d.has = {s: bool(s in reg) for s in RAW_STRINGS}
+    d.res = {s: resolve(unyt, reg, s, has=d.has) for s in PROBE_STRINGS}
+    d.raw = {s: raw_lookup(reg, s) for s in RAW_STRINGS}
+    d.cold = {}
+    for s, factors in COLD_PROBES:
+        if all((p + a) in reg for p, a in factors):
+            d.cold[s] = resolve(unyt, reg, "", spelled=s + " " * (rnd + 1))
+        else:
+            d.cold[s] = ("unknown", "not in registry")
+    d.lut = dict(reg.lut)  # rows are immutable tuples: a shallow copy of the dict is a faithful snapshot
+    return d
 
 
 def rows_equal(a, b):
     if a is b:
         return True
-    return And(len(a) == len(b), exact_eq(a[0], b[0]), dims_equal(a[1], b[1]), exact_eq(a[2], b[2]), a[3] == b[3], a[4] == b[4])
+    return conj([len(a) == len(b), eq(a[0], b[0]), dims_equal(a[1], b[1]), eq(a[2], b[2]), a[3] == b[3], a[4] == b[4]])
 
 
 def derived_row(k, lut):
@@ -80,19 +192,31 @@ def derived_row(k, lut):
     for p, f in PREFIX.items():
         if k.startswith(p) and k[len(p):] in lut and lut[k[len(p):]][4]:
             base = lut[k[len(p):]]
-            return And(exact_eq(row[0], base[0] * f), dims_equal(row[1], base[1]), exact_eq(row[2], base[2]), row[4] is False)
+            return conj([eq(row[0], base[0] * f), dims_equal(row[1], base[1]), eq(row[2], base[2]), row[4] is False])
     return False
 
 
+def same_answer(a, b):
+    if a is b:
+        return True
+    if a[0] == "unknown" or b[0] == "unknown":
+        return a == b if (a[0] == "unknown" and b[0] == "unknown") else False
+    return conj([len(a) == len(b), eq(a[0], b[0]), dims_equal(a[1], b[1]), eq(a[2], b[2])])
+
+
 def same_digest(d0, d1):
-    (r0, l0), (r1, l1) = d0, d1
-    conds = []
-    for s in PROBE_STRINGS:
-        a, b = r0[s], r1[s]
+    conds = [same_answer(d0.res[s], d1.res[s]) for s in PROBE_STRINGS]
+    for s in RAW_STRINGS:
+        a, b = d0.raw[s], d1.raw[s]
+        conds.append(d0.has[s] == d1.has[s])
+        if a is b:
+            continue
         if a[0] == "unknown" or b[0] == "unknown":
-            conds.append(a == b if (a[0] == "unknown" and b[0] == "unknown") else False)
+            conds.append(a == b)
         else:
-            conds.append(And(exact_eq(a[0], b[0]), dims_equal(a[1], b[1]), exact_eq(a[2], b[2])))
+            conds.append(rows_equal(a, b))
+    conds += [same_answer(d0.cold[s], d1.cold[s]) for s, _ in COLD_PROBES]
+    l0, l1 = d0.lut, d1.lut
     for k, row in l0.items():
         now = l1.get(k)
         if now is row:
@@ -100,9 +224,49 @@ def same_digest(d0, d1):
         conds.append(False if now is None else rows_equal(row, now))
     for k in l1.keys() - l0.keys():
         conds.append(derived_row(k, l1))
-    if any(c is False for c in conds):
-        return False
-    return And(*conds)
+    return conj(conds)
+
+
+def answer_is(got, want, approx=False):
+    if want is None:
+        return got[0] == "unknown"
+    if got[0] == "unknown" or len(got) == 4 and isinstance(got[3], str) and got[3].startswith("bound to"):
+        return False  # unknown, or a unit that is not bound to the registry it was asked of
+    # a product of several factors may be multiplied in another order by the library: same real number, last-bit different double
+    return conj([close(got[0], want[0]) if approx else eq(got[0], want[0]), dims_equal(got[1], want[1]), eq(got[2], want[2])])
+
+
+def own_table(d):
+    """every channel of a registry nobody edited in this step answers from THAT registry's table: the expected answer is read
+    off the raw rows with the harness's own prefix table (never through the lookup code under test)"""
+    conds = []
+    for s in RAW_STRINGS:
+        want = table_answer(d.lut, s)
+        conds.append(d.has[s] == (want is not None))
+        conds.append(answer_is(d.raw[s], want))
+        conds.append(answer_is(d.res[s], want))
+    for s, factors in COLD_PROBES:
+        atoms = [table_atom(d.lut, p, a) for p, a in factors]
+        if any(a is None for a in atoms):
+            want = None
+        else:
+            want = atoms[0]
+            for a in atoms[1:]:
+                want = (want[0] * a[0], want[1] * a[1], 0.0)
+        conds.append(answer_is(d.cold[s], want, approx=len(factors) > 1))
+    return conj(conds)
+
+
+def own_table_diff(d):
+    out = []
+    for s in RAW_STRINGS:
+        want = table_answer(d.lut, s)
+        for ch, got in (("raw", d.raw[s][:3]), ("Unit", d.res[s])):
+            if repr(got if got[0] != "unknown" else None) != repr(want):
+                out.append(f"{ch} {s}: {got!r}, table says {want!r}")
+    for s, _ in COLD_PROBES:
+        out.append(f"cold {s}: {d.cold[s]!r}")
+    return "; ".join(out)[:700]
 
 
 def ns_digest(unyt):
@@ -147,7 +311,68 @@ def make_A(ctx, kind, symbolic):
         reg = UR.UnitRegistry()
     reg.add(FOO, s, D.length, prefixable=True)
     reg.add(BAR, b, D.time)
+    if kind == "modm":  # a registry that disagrees with every other one (and with the default one) about a prefixable STOCK symbol
+        reg.modify("m", scale(ctx, "mA", symbolic, 2.5))
     return reg
+
+
+# ------------------------------------------------------------------------------------ registries born together
+#
+# Two registries obtained from ONE source registry S by one serialisation / one copying operation (or by the same one twice).
+# S itself stays in the world as a watched registry that is never operated on.
+
+def make_siblings(ctx, how, S):
+    unyt, UR = ctx.mods["unyt"], ctx.mods["UR"]
+    q = lambda: unyt.unyt_quantity(1.5, FOO, registry=S)  # noqa: E731
+    arr = lambda: unyt.unyt_array([1.0, 2.0], f"k{FOO}/{BAR}", registry=S)  # noqa: E731
+    unit = lambda s=FOO: unyt.Unit(s, registry=S)  # noqa: E731
+    if how == "sib_pickle_tuple":  # two arrays in ONE dump
+        a, b = pickle.loads(pickle.dumps((q(), arr())))
+        return a.units.registry, b.units.registry
+    if how == "sib_pickle_nested":  # ... nested in containers, three objects of which the first and the last are used
+        d = pickle.loads(pickle.dumps({"x": arr(), "y": [q(), {"z": q()}]}))
+        return d["x"].units.registry, d["y"][1]["z"].units.registry
+    if how == "sib_pickle_unit_qty":  # a Unit object and an array in one dump
+        u, b = pickle.loads(pickle.dumps((unit(), q())))
+        return u.registry, b.units.registry
+    if how == "sib_pickle_units":  # two Unit objects in one dump (pickle restores ONE registry object for both: nothing to isolate then)
+        u, v = pickle.loads(pickle.dumps([unit(), unit("k" + FOO)]))
+        return u.registry, v.registry
+    if how == "sib_pickle_loads_twice":  # the same bytes restored twice
+        data = pickle.dumps(arr())
+        return pickle.loads(data).units.registry, pickle.loads(data).units.registry
+    if how == "sib_pickle_dumps_twice":
+        return pickle.loads(pickle.dumps(q())).units.registry, pickle.loads(pickle.dumps(arr())).units.registry
+    if how == "sib_json_twice":  # the same JSON text restored twice
+        text = S.to_json()
+        return UR.UnitRegistry.from_json(text), UR.UnitRegistry.from_json(text)
+    if how == "sib_deepcopy_tuple":  # one deepcopy of a container of two arrays
+        a, b = copy.deepcopy((q(), arr()))
+        return a.units.registry, b.units.registry
+    if how == "sib_deepcopy_units":
+        u, v = copy.deepcopy([unit(), unit("k" + FOO)])
+        return u.registry, v.registry
+    if how == "sib_deepcopy_registries":  # one deepcopy of a container naming the registry twice
+        a, b = copy.deepcopy([S, S])
+        return a, b
+    if how == "sib_copy_twice":
+        return copy.copy(S), copy.copy(S)
+    if how == "sib_unit_copy_deep_twice":
+        return unit().copy(deep=True).registry, unit().copy(deep=True).registry
+    if how == "sib_lut_copy_twice":
+        return UR.UnitRegistry(lut=dict(S.lut)), UR.UnitRegistry(lut=dict(S.lut), add_default_symbols=False)
+    raise KeyError(how)
+
+
+ONE_OPERATION = ("sib_pickle_tuple", "sib_pickle_nested", "sib_pickle_unit_qty", "sib_pickle_units", "sib_deepcopy_tuple", "sib_deepcopy_units",
+                 "sib_deepcopy_registries")
+SERIALISED = ("json", "pickle", "sib_pickle_tuple", "sib_pickle_nested", "sib_pickle_unit_qty", "sib_pickle_units", "sib_pickle_loads_twice",
+              "sib_pickle_dumps_twice", "sib_json_twice")
+
+
+def no_shared_table(regs):
+    """registry objects are pairwise the SAME object (one registry under two names) or share neither table nor unit cache"""
+    return all(x is y or (x.lut is not y.lut and x._unit_object_cache is not y._unit_object_cache) for x, y in itertools.combinations(regs, 2))
 
 
 def make_B(ctx, how, A, name="B", others=()):
@@ -224,19 +449,47 @@ class World:
         self.D = self.unyt.dimensions
         self.DEF = ctx.mods["UR"].default_unit_registry
         kindA, howB = config[0], config[1]
-        concrete = howB in ("json", "pickle")
+        concrete = howB in SERIALISED
         A = make_A(ctx, kindA, not concrete)
-        self.regs = [R("A", A, not concrete), R("B", make_B(ctx, howB, A, "B", (A,)), not concrete or howB.startswith("indep"))]
-        if len(config) > 2:
-            self.regs.append(R("C", make_B(ctx, config[2], A, "C", (A, self.regs[1].reg)), True))
+        self.watch = []  # registries that are observed like all others but never operated on
+        if howB.startswith("sib_"):
+            a, b = make_siblings(ctx, howB, A)
+            ctx.require("siblings: one registry object or no shared table", no_shared_table([A, a, b]))
+            if howB not in ONE_OPERATION:  # two separate restores / copies: two registries (one operation may mirror the source's sharing)
+                ctx.require("siblings: separate restores give separate registries", a is not b and a is not A and b is not A)
+            if a is b:
+                b = copy.deepcopy(A)  # one registry under two names: the interleaving continues with an independent second registry
+            self.regs = [R("A", a, not concrete), R("B", b, not concrete)]
+            self.watch.append(("SRC", A))
+        else:
+            self.regs = [R("A", A, not concrete), R("B", make_B(ctx, howB, A, "B", (A,)), not concrete or howB.startswith("indep"))]
+            if len(config) > 2:
+                self.regs.append(R("C", make_B(ctx, config[2], A, "C", (A, self.regs[1].reg)), True))
+        self.watch.append(("DEF", self.DEF))
         self.hist = []
         self.mc = mc_stats(ctx)
         self.dirty_default = False
+        self.rnd = 0
         self.take_all()
 
+    def roles(self, first=()):
+        """observation order: the registries named in `first` (the ones just operated on), then all others"""
+        names = [r.role for r in self.regs] + [w[0] for w in self.watch]
+        return [n for n in names if n in first] + [n for n in names if n not in first]
+
+    def registry_of(self, role):
+        for w in self.watch:
+            if w[0] == role:
+                return w[1]
+        return self.by_role(role).reg
+
     def take_all(self):
-        self.dg = {r.role: digest(self.unyt, r.reg) for r in self.regs}
-        self.dg["DEF"] = digest(self.unyt, self.DEF)
+        """initial observation (nothing has been edited yet): every registry already answers from its own table, in whichever
+        order the registries are asked"""
+        self.dg = {}
+        for role in self.roles():
+            d = self.dg[role] = digest(self.unyt, self.registry_of(role), self.rnd)
+            req(self.ctx, f"own-table:{role}/initial", own_table(d), lambda: self.info(wrong=own_table_diff(d)))
         self.ns = ns_digest(self.unyt)
 
     def info(self, **kw):
@@ -245,20 +498,24 @@ class World:
     def by_role(self, role):
         return next(r for r in self.regs if r.role == role)
 
-    def check_untouched(self, op, touched):
-        """frame condition: everything not operated on has the digest it had before the step"""
+    def check_untouched(self, op, touched, edited=()):
+        """frame condition: everything not operated on has the digest it had before the step; and whatever was not EDITED in this
+        step answers from its own table (a registry that was only read - prefixed units built, systems derived - included)"""
         ctx = self.ctx
-        for role in [r.role for r in self.regs] + ["DEF"]:
-            reg = self.DEF if role == "DEF" else self.by_role(role).reg
-            new = digest(self.unyt, reg)
+        self.rnd += 1
+        for role in self.roles(first=touched):
+            new = digest(self.unyt, self.registry_of(role), self.rnd)
             if role not in touched:
                 old = self.dg[role]
                 req(ctx, f"untouched:{role}/after-{op}", same_digest(old, new),
                     lambda: self.info(changed=self.diff(old, new)))
+            if role not in edited:
+                req(ctx, f"own-table:{role}/after-{op}", own_table(new), lambda: self.info(wrong=own_table_diff(new)))
             self.dg[role] = new
-            for ps in (FOO, "k" + FOO, XNEW):
-                v = new[0][ps]
-                ctx.observe(f"{role}:{ps}", "unknown" if v[0] == "unknown" else v[0])
+            if role != "SRC":
+                for ps in (FOO, "k" + FOO, XNEW):
+                    v = new.res[ps]
+                    ctx.observe(f"{role}:{ps}", "unknown" if v[0] == "unknown" else v[0])
         ns = ns_digest(self.unyt)
         if "NS" not in touched:
             req(ctx, f"untouched:unyt-namespace/after-{op}", ns == self.ns, lambda: self.info(changed=str([k for k in ns if ns[k] != self.ns.get(k)])))
@@ -273,12 +530,14 @@ class World:
     @staticmethod
     def diff(old, new):
         out = []
-        for s in PROBE_STRINGS:
-            if repr(old[0][s]) != repr(new[0][s]):
-                out.append(f"{s}: {old[0][s]!r} -> {new[0][s]!r}")
-        for k in set(old[1]) | set(new[1]):
-            if old[1].get(k) is not new[1].get(k):
-                out.append(f"lut[{k}]: {old[1].get(k)!r} -> {new[1].get(k)!r}")
+        for ch, keys in (("res", PROBE_STRINGS), ("raw", RAW_STRINGS), ("has", RAW_STRINGS), ("cold", [c[0] for c in COLD_PROBES])):
+            o, n = getattr(old, ch), getattr(new, ch)
+            for s in keys:
+                if repr(o[s]) != repr(n[s]):
+                    out.append(f"{ch} {s}: {o[s]!r} -> {n[s]!r}")
+        for k in set(old.lut) | set(new.lut):
+            if old.lut.get(k) is not new.lut.get(k):
+                out.append(f"lut[{k}]: {old.lut.get(k)!r} -> {new.lut.get(k)!r}")
         return "; ".join(out)[:600]
 
     # ---------------------------------------------------------------- transitions
@@ -309,7 +568,7 @@ class World:
             if name in ("add_new", "modify"):
                 self.by_role(arg).symbolic = True  # now holds a symbolic scale: not serialisable any more
             # a registry that IS the operated one under another role counts as operated on only if the harness made it so
-            self.check_untouched(op, touched)
+            self.check_untouched(op, touched, touched if name != "mk_pref" else ())
         elif name == "derive":
             self.derive(i, self.by_role(arg))
             self.check_untouched(op, set())
@@ -325,7 +584,7 @@ class World:
             self.check_untouched(op, set())
         elif name == "default":
             self.default_ops(i)
-            self.check_untouched(op, {"DEF", "NS"})
+            self.check_untouched(op, {"DEF", "NS"}, {"DEF"})
         else:
             raise KeyError(op)
 
@@ -390,14 +649,14 @@ class World:
     def default_ops(self, i):
         ctx, unyt, DEF = self.ctx, self.unyt, self.DEF
         v = ctx.real(f"v{i}")  # ANY real, also non-positive
-        before = digest(unyt, DEF)
+        before = digest(unyt, DEF, self.rnd)
         for sym in ("m", "g", "km", "k" + FOO, FOO, "degC", "nosuchsymbol"):
             for what, f in (("modify-float", lambda: DEF.modify(sym, v)), ("modify-quantity", lambda: DEF.modify(sym, ctx.quantity(v, "cm"))),
                             ("remove", lambda: DEF.remove(sym))):
                 r = call(f)
                 req(ctx, f"default-registry/{what}/refuses", r[0] == "raise" and type(r[1]) is TypeError,
                     lambda: self.info(symbol=sym, got="returned" if r[0] == "ok" else repr(r[1])))
-        req(ctx, "default-registry/unchanged-by-refused-edits", same_digest(before, digest(unyt, DEF)), lambda: self.info())
+        req(ctx, "default-registry/unchanged-by-refused-edits", same_digest(before, digest(unyt, DEF, self.rnd)), lambda: self.info())
         # the sanctioned way to change the default registry; every other registry must not notice
         if XQQ not in DEF.lut:
             self.dirty_default = True
@@ -458,6 +717,17 @@ QUICK_SKIP = [("defaults", "indep_empty"), ("defaults", "copy_deep"), ("defaults
 NAMESPACE_CONFIGS = [("defaults", "indep_defaults"), ("cgs", "indep_defaults"), ("defaults", "deepcopy"), ("defaults", "copy_shallow")]
 LONG = [("defaults", "indep_defaults"), ("defaults", "deepcopy"), ("defaults", "copy_shallow"), ("defaults", "pickle")]
 CONFIGS3 = [("defaults", "deepcopy", "indep_empty"), ("defaults", "copy_shallow", "indep_cgs"), ("defaults", "pickle", "indep_defaults")]
+# registries born together from one source (the source is watched, never operated on)
+SIBLINGS = [("defaults", "sib_pickle_tuple"), ("cgs", "sib_pickle_tuple"), ("defaults", "sib_pickle_nested"), ("defaults", "sib_pickle_unit_qty"),
+            ("defaults", "sib_pickle_units"), ("defaults", "sib_pickle_loads_twice"), ("defaults", "sib_pickle_dumps_twice"),
+            ("defaults", "sib_json_twice"), ("lut", "sib_json_twice"), ("defaults", "sib_deepcopy_tuple"), ("defaults", "sib_deepcopy_units"),
+            ("defaults", "sib_deepcopy_registries"), ("defaults", "sib_copy_twice"), ("cgs", "sib_copy_twice"),
+            ("defaults", "sib_unit_copy_deep_twice"), ("defaults", "sib_lut_copy_twice")]
+# a registry that redefines a prefixable STOCK symbol ("m") next to registries (and the default one) that do not
+MODM = [("modm", "indep_defaults"), ("modm", "deepcopy"), ("modm", "indep_same")]
+NEW_QUICK_SKIP = [("cgs", "sib_copy_twice"), ("lut", "sib_json_twice"), ("defaults", "sib_pickle_dumps_twice")]
+NEW_LONG = [("defaults", "sib_pickle_tuple"), ("defaults", "sib_pickle_unit_qty"), ("defaults", "sib_json_twice"), ("defaults", "sib_deepcopy_tuple"),
+            ("defaults", "sib_copy_twice"), ("modm", "indep_defaults")]
 
 
 def cases(tier, mods):
@@ -473,6 +743,15 @@ def cases(tier, mods):
         if config in NAMESPACE_CONFIGS:
             for pre in (("namespace@A",), ("modify@A", "namespace@A", "modify@B"), ("mk_pref@B", "namespace@B", "add_new@A", "namespace@A")):
                 out.append(make_case(config, pre, len(pre)))
+    for config in SIBLINGS + MODM:
+        if tier == "quick":
+            if config not in NEW_QUICK_SKIP:
+                out.append(make_case(config, (), 2))  # all histories of length <= 2 in one case
+        elif config in NEW_LONG:
+            for first in alphabet(config):
+                out.append(make_case(config, (first,), 3))
+        else:
+            out.append(make_case(config, (), 2))
     return out
 
 
